@@ -40,8 +40,8 @@ GRACE_S = 60
 
 FINDING = 'C18-torn-overwrite-unpickle-escapes'
 
-N = {'quick': dict(payloads=40, keys=5, rec=64, recx=6, conc=16, users=3, realkills=1),
-     'thorough': dict(payloads=640, keys=60, rec=2000, recx=90, conc=600, users=6, realkills=3)}
+N = {'quick': dict(payloads=40, keys=5, rec=64, recx=6, conc=12, users=3, realkills=1),
+     'thorough': dict(payloads=600, keys=60, rec=2000, recx=90, conc=500, users=6, realkills=3)}
 
 CORE = [('scalar', 0), ('scalar', 6), ('scalar', 12), ('scalar', 16), ('scalar', 18), ('scalar', 19), ('scalar', 20),
         ('nested', 1), ('nested', 2), ('nested', 3), ('nested', 4),
@@ -65,9 +65,9 @@ def payload_spec(tier, seed, i):
     else:
         kind = KINDS[int(rng.integers(0, len(KINDS)))]
         s = int(rng.integers(0, 10000))
-        if i % 97 == 0 and tier == 'thorough':
+        if i % 200 == 0 and tier == 'thorough':
             kind = 'hugearray'
-        elif i % 29 == 0:
+        elif i % 60 == 0:
             kind = 'bigarray'
     if i == 7 or (i > len(CORE) and i % 41 == 0):     # the function without parameters (its body is fixed)
         return dict(sig='noargs', kind='nested', seed=12345, nlog=2, dress=0)
